@@ -90,3 +90,16 @@ Definition w_good : list mop :=
 
 Lemma w_good_ok : hist_okb w_good (mgr_init w_init) = true.
 Proof. vm_compute. reflexivity. Qed.
+
+(** the advertised limit at work: after SetConnectionIDLimit(8) seven more IDs are accepted
+    (8 with the active one) and the next one is refused; without the call the limit is
+    MaxActiveConnectionIDs *)
+Definition w_lim8 : list mop := MSetLimit 8 :: map w_add [1; 2; 3; 4; 5; 6; 7].
+
+Lemma advertised_limit_example :
+  hist_okb w_lim8 (mgr_init w_init) = true /\
+  m_advlimit (mgr_run w_lim8 (mgr_init w_init)) = 8 /\
+  snd (mgr_add 8 0 [8; 7] 1008 0 (mgr_run w_lim8 (mgr_init w_init))) = RLimit /\
+  snd (mgr_add MaxActiveConnectionIDs 0 [4; 7] 1004 0
+         (mgr_run (map w_add [1; 2; 3]) (mgr_init w_init))) = RLimit.
+Proof. vm_compute. repeat split; reflexivity. Qed.
